@@ -327,6 +327,9 @@ class DSG:
         - `UNORDERED`: To have all option index combinations without ordering  --> AA, AB, AC, BB, BC, CC
         - `UNORDERED_NOREPL`: Same but also without replacement                --> AB, AC, BC
         """
+        # Choices that have been removed from the graph (e.g. because a previously-added constraint makes the option
+        # they belong to infeasible) can never become active
+        choice_nodes = [node for node in choice_nodes if node in self._graph.nodes]
         if len(choice_nodes) == 0:
             return self
         choice_nodes = self.ordered_choice_nodes(choice_nodes)
